@@ -9,7 +9,7 @@ from ..libsum import parse_lib
 from ..model import Model, Mod, dotted_name, src, DEAD_MODULES, member_kind
 from ..report import AnalysisError, Where
 from . import C09
-from .C12 import Proxy
+from .C12 import Proxy, Reuse
 
 LEVEL = "other"
 TECHNIQUE = "static analysis: effects (writes to module/class-level state, parameter-mutation summaries and argument freshness, unordered iteration commutativity, ambient inputs, file modes)"
@@ -310,12 +310,9 @@ def r_ambient(ctx, model):
 
 
 def r_cwd(ctx, model):
-    class Only(Proxy):
-        def check(self, cond, instance, *a, **k):
-            if instance.startswith("directory named"):
-                return self.ctx.check(cond, instance, *a, **k)
-            return cond
-    C09.r_file(Only(ctx, {"x"}), model)
+    px = Reuse(ctx, lambda lab: lab.startswith("directory named") or "directory" in lab, minimum=1)
+    C09.r_file(px, model)
+    px.done("C09.r_file")
     # packaged data are located through the package, not the working directory: each reader folded on the file-system model
     # (paths carry their anchor); every file it opens or probes must be anchored in the package
     from ..fsmodel import FS, PathV
